@@ -435,6 +435,42 @@ func (b *BoxVIt) Stop() {
 	}
 }
 
+// BoxM is the element type of generators yielding MAP literals whose KEY is the computed expression
+// (map[int]int{e: 1}): a keyed composite literal is effect-free only if its keys are.
+type BoxM map[int]int
+
+// BoxMIt adapts an iterator of BoxM to the int protocol of the drivers: it reads the single key of every
+// delivered map and then mutates the map.
+type BoxMIt struct {
+	In interface {
+		MoveNext() bool
+		Current() BoxM
+	}
+	cur int
+}
+
+func (b *BoxMIt) MoveNext() bool {
+	ok := b.In.MoveNext()
+	b.cur = 0
+	if ok {
+		m := b.In.Current()
+		for k := range m {
+			b.cur = k
+		}
+		if m != nil {
+			delete(m, b.cur)
+			m[b.cur+98] = 2
+		}
+	}
+	return ok
+}
+func (b *BoxMIt) Current() int { return b.cur }
+func (b *BoxMIt) Stop() {
+	if s, ok := b.In.(interface{ Stop() }); ok {
+		s.Stop()
+	}
+}
+
 // IntIt is the int protocol of the drivers.
 type IntIt interface {
 	MoveNext() bool
